@@ -510,7 +510,7 @@ func Encode(vals []*model.Value, c *choice.C) (*Encoded, error) {
 	cuts = append(cuts, len(vals))
 	for s := 0; s+1 < len(cuts); s++ {
 		seg := vals[cuts[s]:cuts[s+1]]
-		if s > 0 && cuts[s] == cuts[s-1] {
+		if s > 0 && len(seg) == 0 {
 			continue
 		}
 		if s > 0 && c.Flip("stream:repeat-ivm") {
